@@ -12,6 +12,7 @@ import (
 	"path/filepath"
 	"regexp"
 	"sort"
+	"strings"
 	"time"
 
 	"golang.org/x/tools/go/ssa"
@@ -104,7 +105,7 @@ type SymResult struct {
 
 func defaultInit(pkgPath string, extra []string) func(string) bool {
 	return func(p string) bool {
-		if p == pkgPath || p == "unicode" || p == "unicode/utf8" {
+		if p == pkgPath || p == "unicode" || p == "unicode/utf8" || strings.HasPrefix(p, "gen/") {
 			return true
 		}
 		for _, x := range extra {
